@@ -586,7 +586,7 @@ def c11_lifecycle(chk, ex, status_domain):
 
 
 # ------------------------------------------------------------------------------------------------ C14
-def c14_callback_create(chk, ex):
+def c14_callback_create(chk, ex, prefix="C14"):
     eng, rec0 = ex.eng, ex.inputs["rec0"]
     cfg = ex.inputs["cfg"]
     for path in ex.paths:
@@ -623,7 +623,7 @@ def c14_callback_create(chk, ex):
                         goal = F
                 else:
                     goal = z3.And(goal, z3.BoolVal(exc_class(v) == "CallbackError"))
-        P(chk, ex, path, "C14.callback.create", is_none(rec0), goal,
+        P(chk, ex, path, f"{prefix}.callback.create", is_none(rec0), goal,
           "no record => exactly one synchronous CALLBACK START carrying the configured timeouts; returns the callback id of the re-read record (CallbackError if the backend sent no details)")
 
 
@@ -665,18 +665,18 @@ def c14_callback_result(chk, ex):
                "outstanding": "outstanding callback => suspends (no timer), no update"}[cname])
 
 
-def c14_invoke(chk, ex):
+def c14_invoke(chk, ex, prefix="C14"):
     eng, rec0 = ex.eng, ex.inputs["rec0"]
     self_, cfg = ex.inputs["self"], ex.inputs["cfg"]
     for path in ex.paths:
         k, v, st = path
         all_cps = cps(st)
         if feasible_pre(ex, st, z3.Not(is_none(rec0))):
-            P(chk, ex, path, "C14.invoke.no_restart", z3.Not(is_none(rec0)), len(all_cps) == 0, "an invoke that already has a record is never started again")
+            P(chk, ex, path, f"{prefix}.invoke.no_restart", z3.Not(is_none(rec0)), len(all_cps) == 0, "an invoke that already has a record is never started again")
         if feasible_pre(ex, st, is_none(rec0)):
             ser_raised = any(e.kind == "raised" and e.name == "SerDes.serialize" for e in st.trace)
             if ser_raised:
-                P(chk, ex, path, "C14.invoke.start_once", is_none(rec0), len(all_cps) == 0 and k == "raise", "payload cannot be serialized => nothing is sent, the call raises")
+                P(chk, ex, path, f"{prefix}.invoke.start_once", is_none(rec0), len(all_cps) == 0 and k == "raise", "payload cannot be serialized => nothing is sent, the call raises")
             else:
                 ok = len(all_cps) == 1
                 goal = z3.BoolVal(ok)
@@ -689,11 +689,11 @@ def c14_invoke(chk, ex):
                     opts = z3.And(ops.values_equal(st, st.get(cio)["function_name"], s_["function_name"]), ops.values_equal(st, st.get(cio)["tenant_id"], st.get(cfg)["tenant_id"])) if isinstance(cio, Ref) else F
                     goal = z3.And(action_is(eng, st, c, "START"), type_is(eng, st, c, "CHAINED_INVOKE"), sync_term(c), own_cp(ex, st, c), opts,
                                   z3.And(ops.values_equal(st, upd(st, c, "payload"), ser[1]), z3.IntVal(ser[0].oid) == sid) if ser else F)
-                P(chk, ex, path, "C14.invoke.start_once", is_none(rec0), goal,
+                P(chk, ex, path, f"{prefix}.invoke.start_once", is_none(rec0), goal,
                   "no record => exactly one synchronous CHAINED_INVOKE START with serialize(payload serdes, payload), the target function name and tenant id")
         out = status_in(eng, st, rec0, ["STARTED", "PENDING", "READY"])
         if feasible_pre(ex, st, out):
-            P(chk, ex, path, "C14.invoke.outstanding_suspends", out, k == "raise" and exc_class(v) in SUSPEND and not all_cps, "outstanding invoke => suspends, sends nothing")
+            P(chk, ex, path, f"{prefix}.invoke.outstanding_suspends", out, k == "raise" and exc_class(v) in SUSPEND and not all_cps, "outstanding invoke => suspends, sends nothing")
 
 
 # ------------------------------------------------------------------------------------------------ C16 (child part)
